@@ -16,7 +16,7 @@ Proof. exact round_trip_iso. Qed.
 
 (* the invariant of the memoised walk, for both directions, over the whole recursion: from any state satisfying
    Inv (memo values below the counter, memo injective, every allocated address a memo value, memo keys within the
-   reference-closed set Q, e.g. the objects reachable from the root) a call with enough fuel
+   reference-closed set Q, e.g. the objects reachable from the root, every memo key pinned when the state keeps alive) a call with enough fuel
    returns, the state is extended (old entries and old destination objects untouched; every entry registered during
    the call is done: its object is the image of the source object under the memo), and Inv holds again *)
 Theorem C04_memo_invariant : forall P src U (Q : addr -> Prop),
@@ -46,13 +46,44 @@ Theorem C04_refuted_altcycle :
     ~ iso (dst s2) r' (heap_of altcycle_heap) 0.
 Proof. exact refuted_altcycle. Qed.
 
-(* over histories: a FromDAOState reused for a second load whose DAO has the address of a released one (finding C04-b) *)
-Theorem C04_refuted_state_reuse :
+(* keep-alive, as an invariant of the walk for both directions (ToDAOState.keep_alive; FromDAOState.keep_alive since repo
+   commit 32013a0): with p_keep every key of the memo is pinned by the state, so its address cannot be recycled *)
+Theorem C04_keep_alive_invariant : forall P src U (Q : addr -> Prop),
+  (forall a, Q a -> exists o, src a = Some o /\ forall t ks k, In (t, ks) (oflds o) -> In k ks -> Q k) ->
+  (forall a, Q a -> In a U) ->
+  (forall a o, src a = Some o -> p_late P (p_cmap P (ocls o)) = None) ->
+  forall fuel a s d s', p_keep P = true -> Inv P src Q s -> Q a -> length (unmemo U s) < fuel ->
+  walk P src fuel a s = Some (d, s') -> forall x y, mlook x s' = Some y -> In x (keep s').
+Proof. exact keep_memo_keys. Qed.
+
+(* over histories: a FromDAOState reused for a second conversion.  The DAOs of the history are kept alive, hence live in
+   one heap with distinct addresses; the second conversion is correct, the first result stays valid, every memoised DAO
+   is pinned (finding C04-b / C04-c, fixed by 32013a0) *)
+Theorem C04_state_reuse_safe : forall alts l r1 r2,
+  wf_heap l r1 = true -> wf_heap l r2 = true -> F04 alts l = true ->
+  exists d1 s1 d2 s2,
+    from_dao alts (heap_of l) (length l) r1 st0 = Some (d1, s1) /\
+    from_dao alts (heap_of l) (length l) r2 s1 = Some (d2, s2) /\
+    iso (heap_of l) r1 (dst s2) d1 /\ iso (heap_of l) r2 (dst s2) d2 /\
+    (forall x y, mlook x s2 = Some y -> In x (keep s2)).
+Proof. exact state_reuse_safe. Qed.
+
+(* the old failing scenario (second DAO at the released address of the first) is no longer a state the runtime can
+   present: the first DAO is pinned *)
+Theorem C04_state_reuse_scenario_excluded :
+  exists r1 s1, from_dao [] reuse_dao1 1 0 st0 = Some (r1, s1) /\ In 0 (keep s1) /\
+    ~ admissible_next s1 reuse_dao1 reuse_dao2.
+Proof. exact state_reuse_scenario_excluded. Qed.
+
+(* regression example about the code BEFORE 32013a0 (no keep_alive in FromDAOState): nothing is pinned, the recycled
+   address is admissible, and the second from_dao returns the first row's object *)
+Example C04_regression_state_reuse_old :
   exists r1 s1 r2 s2,
-    from_dao [] reuse_dao1 1 0 st0 = Some (r1, s1) /\
-    from_dao [] reuse_dao2 1 0 s1 = Some (r2, s2) /\
+    from_dao_old [] reuse_dao1 1 0 st0 = Some (r1, s1) /\
+    keep s1 = [] /\ admissible_next s1 reuse_dao1 reuse_dao2 /\
+    from_dao_old [] reuse_dao2 1 0 s1 = Some (r2, s2) /\
     ~ iso (dst s2) r2 reuse_dao2 0.
-Proof. exact refuted_state_reuse. Qed.
+Proof. exact old_state_reuse_regression. Qed.
 
 (* non-vacuity: a heap with a shared object, a 2-cycle, a self loop, None and an empty collection is in the fragment,
    and the model's round trip has the canonical form of the input *)
@@ -71,4 +102,6 @@ Print Assumptions C04_memo_invariant.
 Print Assumptions C04_iso_bijection.
 Print Assumptions C04_canon_sound.
 Print Assumptions C04_refuted_altcycle.
-Print Assumptions C04_refuted_state_reuse.
+Print Assumptions C04_keep_alive_invariant.
+Print Assumptions C04_state_reuse_safe.
+Print Assumptions C04_state_reuse_scenario_excluded.
